@@ -54,31 +54,98 @@ def skolemize_goal(goal):
     return sk1(goal), sks
 
 
-def instantiate_hyps(pc, sks, extra_terms=()):
+def _has_var(e):
+    stack, seen = [e], set()
+    while stack:
+        x = stack.pop()
+        if x.get_id() in seen:
+            continue
+        seen.add(x.get_id())
+        if z3.is_var(x):
+            return True
+        if z3.is_quantifier(x):
+            continue
+        stack.extend(x.children())
+    return False
+
+
+def _index_terms(exprs, limit=6000):
+    """ground integer terms used as sequence indices (seq.nth / seq.at / seq.extract offsets)"""
+    out, seen, stack, n = [], set(), list(exprs), 0
+    while stack and n < limit:
+        e = stack.pop()
+        n += 1
+        if e.get_id() in seen:
+            continue
+        seen.add(e.get_id())
+        if z3.is_quantifier(e):
+            stack.append(e.body())
+            continue
+        if z3.is_app(e) and e.decl().kind() in (z3.Z3_OP_SEQ_NTH, z3.Z3_OP_SEQ_AT) and e.num_args() == 2:
+            t = e.arg(1)
+            if not _has_var(t) and not z3.is_int_value(t):
+                out.append(t)
+        stack.extend(e.children())
+    uniq, ids = [], set()
+    for t in out:
+        if t.get_id() not in ids:
+            ids.add(t.get_id())
+            uniq.append(t)
+    return uniq
+
+
+def _inst(q, terms, depth, out, budget):
+    """ground instances of a (possibly nested) universally quantified hypothesis"""
+    if budget[0] <= 0 or depth > 3:
+        return
+    if z3.is_and(q):
+        for c in q.children():
+            _inst(c, terms, depth, out, budget)
+        return
+    if z3.is_implies(q) and (z3.is_quantifier(q.arg(1)) or z3.is_and(q.arg(1))):
+        sub = []
+        _inst(q.arg(1), terms, depth, sub, budget)
+        for x in sub:
+            out.append(z3.Implies(q.arg(0), x))
+        return
+    if z3.is_quantifier(q) and q.is_forall():
+        n = q.num_vars()
+        if n > 2:
+            return
+        import itertools
+        sorts = [q.var_sort(i) for i in range(n)]
+        cands = [[t for t in terms if t.sort() == so] for so in sorts]
+        if any(not c for c in cands):
+            return
+        for combo in itertools.islice(itertools.product(*cands), 24):
+            budget[0] -= 1
+            body = z3.substitute_vars(q.body(), *reversed(combo))
+            out.append(body)
+            _inst(body, terms, depth + 1, out, budget)
+        return
+
+
+def instantiate_hyps(pc, sks, goal=None):
     """ground instances of universally quantified hypotheses at the skolem constants of the
-    goal (the quantified hypotheses stay too): the solver is not asked to find instances"""
+    goal and at the index terms that occur in goal and instances (two rounds; the quantified
+    hypotheses stay as well): the solver is not asked to find the instances"""
     out = []
-    if not sks and not extra_terms:
+    terms = list(sks)
+    if goal is not None:
+        terms += _index_terms([goal])
+    if not terms:
         return out
-    terms = list(sks) + list(extra_terms)
+    budget = [400]
     for p in pc:
-        stack = [p]
-        while stack:
-            q = stack.pop()
-            if z3.is_and(q):
-                stack.extend(q.children())
-                continue
-            if z3.is_quantifier(q) and q.is_forall():
-                n = q.num_vars()
-                if n > 2:
-                    continue
-                sorts = [q.var_sort(i) for i in range(n)]
-                cands = [[t for t in terms if t.sort() == so] for so in sorts]
-                if any(not c for c in cands):
-                    continue
-                import itertools
-                for combo in itertools.islice(itertools.product(*cands), 16):
-                    out.append(z3.substitute_vars(q.body(), *reversed(combo)))
+        _inst(p, terms, 0, out, budget)
+    # second round: index terms that the first round produced, e.g. src(sk)
+    seen = {t.get_id() for t in terms}
+    new_terms = [t for t in _index_terms(out) if t.get_id() not in seen][:8]
+    if new_terms:
+        out2 = []
+        for p in pc:
+            _inst(p, new_terms, 0, out2, budget)
+        out += out2
     return out
 
 
@@ -173,7 +240,35 @@ def _check_one(pc, insts, goal, timeout_ms, use_cvc5):
             return "discharged", "cvc5", None, None, h
         if r2 == "sat":
             return "failed", "cvc5", None, smt2, h
+    # the quantified hypotheses make a definite "sat" impossible for the solver; a model of the
+    # quantifier-free part (plus the ground instances) is still a *candidate* counterexample.
+    # It is only ever reported after the native replay reproduces it on the real code.
+    qf = [p for p in pc if not _has_quant(p)]
+    if len(qf) != len(pc):
+        s = z3.Solver()
+        s.set("timeout", short)
+        for p in qf:
+            s.add(p)
+        for i in insts:
+            if not _has_quant(i):
+                s.add(i)
+        s.add(z3.Not(goal))
+        if guarded_check(s, short) == z3.sat:
+            return "failed", "z3(candidate: quantified hypotheses dropped)", s.model(), s.to_smt2(), h
     return "unknown", "z3" + ("+cvc5" if use_cvc5 else ""), None, smt2, h
+
+
+def _has_quant(e):
+    stack, seen = [e], set()
+    while stack:
+        x = stack.pop()
+        if x.get_id() in seen:
+            continue
+        seen.add(x.get_id())
+        if z3.is_quantifier(x):
+            return True
+        stack.extend(x.children())
+    return False
 
 
 def solve_vc(vc, timeout_ms=10000, use_cvc5=True, want_smt2=False, cross=False):
@@ -183,7 +278,7 @@ def solve_vc(vc, timeout_ms=10000, use_cvc5=True, want_smt2=False, cross=False):
         return Verdict(vc.name, "discharged", "simplifier", time.time() - t0, meta=vc.meta, trivial=True,
                        smt_hash="true")
     goal, sks = skolemize_goal(goal)
-    insts = instantiate_hyps(vc.pc, sks)
+    insts = instantiate_hyps(vc.pc, sks, goal)
     parts = split_goal(goal)
     backends = set()
     hashes = []
@@ -254,6 +349,11 @@ def concretize(v, model):
         if z3.is_true(ev(v.isnone)):
             return None
         return concretize(v.inner, model)
+    if isinstance(v, VUnion):
+        for c, x in v.alts:
+            if z3.is_true(ev(c)):
+                return concretize(x, model)
+        return None
     if isinstance(v, (VJson, VJsonDict)):
         return json_value(ev(v.z), model)
     if isinstance(v, VTuple):
